@@ -89,8 +89,11 @@ func LogClose(closer io.Closer) error {
 func PipeData(down io.ReadWriteCloser, up io.ReadWriteCloser) error {
 	log.Debugf("Piping data %v <-> %v", down, up)
 
-	downPipe := make(chan error, 0)
-	upPipe := make(chan error, 0)
+	// Both copiers report exactly once and only the first report is consumed below, so the channels must be able
+	// to hold the other one; otherwise the second copier blocks forever on its send and its goroutine (together
+	// with both connections it references) is never released.
+	downPipe := make(chan error, 1)
+	upPipe := make(chan error, 1)
 
 	if os.Getenv("SOCKETACE_PIPE_DEBUG") == "1" {
 		go pipeDebugData(downPipe, down, up)
